@@ -166,6 +166,7 @@ public:
         int64_t extra_nonce{0};                     // distinguishes otherwise identical blocks
         int32_t version{0x20000000};
         bool witness_commitment{false};             // add the BIP141 commitment output (needed iff a tx carries a witness)
+        bool dup_coinbase{false};                   // coinbase without height / nonce: identical in every such block (BIP34 must be inactive)
     };
 
     std::shared_ptr<CBlock> BuildBlock(const BlockSpec& s)
@@ -174,7 +175,7 @@ public:
         b->nVersion = s.version; b->hashPrevBlock = s.prev; b->nTime = s.time; b->nBits = Params().GenesisBlock().nBits;
         CMutableTransaction cb;
         cb.vin.resize(1); cb.vin[0].prevout.SetNull();
-        cb.vin[0].scriptSig = CScript() << (s.cb_height < 0 ? s.height : s.cb_height) << CScriptNum(1000 + s.extra_nonce);
+        cb.vin[0].scriptSig = s.dup_coinbase ? (CScript() << OP_1 << OP_1) : (CScript() << (s.cb_height < 0 ? s.height : s.cb_height) << CScriptNum(1000 + s.extra_nonce));
         cb.vout.resize(1); cb.vout[0].nValue = s.cb_value; cb.vout[0].scriptPubKey = s.cb_spk.empty() ? coinbaseSpk : s.cb_spk;
         b->vtx.push_back(MakeTransactionRef(cb));
         for (const auto& t : s.txs) b->vtx.push_back(t);
